@@ -401,6 +401,26 @@ example : run .enum [ { name := "d.go", comments := [],
 
 /-! ### names that are not package-level types -/
 
+/-- every written file is an entry OF the package directory: when the source file names of the package are base names and
+    the declared type names hold no path separator, neither part of an output name `<src>.shoot<cmd>[.<type>].go` holds one
+    (`-file` selects by equality with a file name of the package, so a value with a directory part selects nothing).
+    Together with `C17_confined` (every entry touched is `pkgPrefix ++ name`): nothing outside the package directory is named -/
+theorem C16_names_no_separator (cmd : Cmd) (pkg : Pkg) (fl : Flags) (h : region cmd pkg fl = .WF)
+    (w : List (OutName × List String)) (l : List OutName) (b : Bool) (hr : run cmd pkg fl = .done w l b)
+    (fs : List (OutName × List String)) (hs : spec cmd pkg fl = some (.files fs))
+    (hfiles : ∀ f ∈ pkg.map File.name, noSep f = true) (htypes : ∀ t f, fileOf pkg t = some f → noSep t = true) :
+    ∀ kv ∈ w, noSep kv.1.src = true ∧ ∀ c, kv.1.ty = some c → noSep c = true := by
+  intro kv hkv
+  rcases (C16_names cmd pkg fl h w l b hr fs hs).2 kv hkv with ⟨t, f, _, hf, hk⟩ | ⟨g, hg, hk⟩
+  · rw [hk]
+    refine ⟨noSep_stem (hfiles f (fileOf_mem hf)), ?_⟩
+    intro c hc
+    simp only [Option.some.injEq] at hc
+    subst hc
+    exact noSep_comp (htypes t f hf)
+  · rw [hk]
+    exact ⟨noSep_stem (hfiles g hg), by intro c hc; cases hc⟩
+
 def wLocalPkg : Pkg :=
   [ { name := "a.go", comments := [], decls := [.types [{ name := "User", shape := .struct }]] },
     { name := "b.go", comments := [],
